@@ -150,9 +150,13 @@ func genValue(rng *mrand.Rand, lists [][]byte, force int) (string, valueClass) {
 	case x < 75:
 		cl.Ech = "quoted"
 		insert(`ech="` + echVal() + `"`)
-	case x < 94:
+	case x < 91:
 		cl.Ech = "unquoted"
 		insert(`ech=` + echVal())
+	case x < 94:
+		// the key without a value: still the ech parameter (RFC 9460 presentation format, "key" alone)
+		cl.Ech = "bare"
+		insert(`ech`)
 	default:
 		cl.Ech = "twice"
 		insert(`ech="` + echVal() + `"`)
@@ -332,7 +336,7 @@ var ctrNames = []string{"histories", "publishes", "targets", "results_updated", 
 	"targets_duplicate_in_call", "duplicate_of_updated_record", "targets_on_later_pages", "later_page_targets_found",
 	"faults_planned", "faults_hit_zone_lookup", "faults_hit_list_page1", "faults_hit_list_later_page", "faults_hit_patch",
 	"patches_applied", "list_requests_page1", "list_requests_later_page", "external_changes",
-	"target_ech_absent", "target_ech_quoted", "target_ech_unquoted", "target_ech_twice",
+	"target_ech_absent", "target_ech_quoted", "target_ech_unquoted", "target_ech_twice", "target_ech_bare",
 	"target_value_quoted_space", "target_value_quoted_space_ech_lookalike", "target_value_empty", "target_value_double_space",
 	"nochange_when_current", "updated_validated", "lenient_after_zone_failure", "lenient_ech_twice", "zones_3_pages", "zones_2_pages", "zones_1_page", "histories_with_sparse_json"}
 
